@@ -21,7 +21,7 @@ CLAIMED = {
    note="seqno relations are compared (absolute values depend on lsm-tree internals); bounded model",
    technique="TLA+ spec invariants on shared counters + TLC + replay with independent journal parser"),
  "C12": dict(engine="store-spec", design="6/C12",
-   text="TLC explores create/write/delete/re-create/open-existing/drop-handle/reopen over 2 names with journal records of deleted keyspaces still present, checking DurableMatchesMemory, DeletedNameAbsent, FilesGone, NoResurrection, ViewEqRef per name; the id counter and the meta keyspace (seqno-ordered name rows and tombstones) are modelled as the code computes them. Behaviours are replayed on the real code comparing names, keyspace_exists, Keyspace::id, content of every keyspace after every step.",
+   text="TLC explores create/write/delete/re-create/open-existing/drop-handle/reopen over 2 names with journal records of deleted keyspaces still present, checking DurableMatchesMemory, DeletedNameAbsent, FilesGone, NoResurrection, ViewEqRef per name; the id counter and the meta keyspace (seqno-ordered name rows and tombstones) are modelled as the code computes them. Behaviours are replayed on the real code comparing names, keyspace_exists, Keyspace::id, content of every keyspace after every step. Batches through the kept handle of a deleted keyspace (StaleBatch: the record carries the dead id, nothing may surface in a keyspace re-created under the name) are part of the model and the replay.",
    note="bounded model (2 names, ids<=4); crash points inside create/delete are covered by the C02 check",
    technique="TLA+ spec (keyspace lifecycle + meta keyspace) + TLC + replay"),
  "C02": dict(engine="journal-spec", design="6/C02",
@@ -29,11 +29,11 @@ CLAIMED = {
    note="process-crash model (page cache survives, prefix-torn writes); single-threaded workloads; file creation through open(2) is not intercepted (coarsens the grid, cannot produce a wrong verdict); known finding D1D2 is reported as such",
    technique="TLA+ specs (FjallJournal, FjallStore CrashSafe) + TLC + crash-image enumeration at every syscall of replayed behaviours"),
  "C03": dict(engine="journal-format-spec", design="6/C03",
-   text="JournalFormat models the journal as cells and the reader as the transcription of Entry::decode_from / JournalReader / JournalBatchReader; TLC checks TornTailAtomic and AppendRecoverable for every cut cell of every layout (EOF and zero-padded, torn multi-byte fields reading as smaller numbers). Real journals written through the API for 8 layouts x both compression settings are cut at every byte offset of the final batch (every 5th in quick), with and without zero padding; each is reopened, must equal the complete earlier batches, the file must be truncated to their end, and an insert appended afterwards must be recovered by a second reopen. Split points of journal write() calls are covered by the crash images of the corpus behaviours.",
+   text="JournalFormat models the journal as cells and the reader as the transcription of Entry::decode_from / JournalReader / JournalBatchReader; TLC checks TornTailAtomic and AppendRecoverable for every cut cell of every layout (EOF and zero-padded, torn multi-byte fields reading as smaller numbers). Real journals written through the API for 8 layouts x both compression settings are cut at every byte offset of the final batch (every 5th in quick), with and without zero padding; each is reopened, must equal the complete earlier batches, the file must be truncated to their end, and an insert appended afterwards must be recovered by a second reopen. Split points of journal write() calls are covered by the crash images of the corpus behaviours. The crash-image campaign is repeated with every batch committed as a write transaction.",
    note="prefix-torn model (no sector reordering); layouts: small / empty / compressed / large incompressible values, tombstone, clear, 2-keyspace batches",
    technique="TLA+ spec (JournalFormat) + TLC + byte-level cut campaign on real journal files"),
  "C05": dict(engine="store-spec", design="6/C05",
-   text="TLC checks ViewsFrozen (point read and scan of every live view equal its content at creation), WatermarkBelowLive and version availability on FjallStore with 2-3 views against writes, clear, ingestion, rotation (pullup+gc), flush, compaction, version-history maintenance; FjallTx checks LiveSnapshotProtected (tracker counts through begin/commit/conflict/rollback of write transactions opened at the same instant). Replay: every live snapshot is re-read completely (all Readable methods) after every step of TLC-chosen behaviours, iterators created together with a view are consumed only when the view closes and must still show the old state; transaction replay checks the tracker count after every step.",
+   text="TLC checks ViewsFrozen (point read and scan of every live view equal its content at creation), WatermarkBelowLive and version availability on FjallStore with 2-3 views against writes, clear, ingestion, rotation (pullup+gc), flush, compaction, version-history maintenance; FjallTx checks LiveSnapshotProtected (tracker counts through begin/commit/conflict/rollback of write transactions opened at the same instant). Replay: every live snapshot is re-read completely (all Readable methods) after every step of TLC-chosen behaviours, iterators created together with a view are consumed only when the view closes and must still show the old state; transaction replay checks the tracker count after every step. The read views of write transactions are covered by replaying FjallTx behaviours (every read method incl. all range-bound shapes and prefix, other transactions committing in between).",
    note="sequential interleavings of view lifetimes with every maintenance step (objects interleaved on one thread realise every logical schedule of the model); true thread schedules are covered by the C14/C06 trace validation",
    technique="TLA+ specs (FjallStore views + tracker, FjallTx tracker) + TLC + replay with frozen-content comparison"),
  "C07": dict(engine="tx-spec", design="6/C07",
@@ -41,11 +41,11 @@ CLAIMED = {
    note="method classes by footprint (get/contains_key, size_of, iter/len/is_empty/first/last, range/prefix, insert/remove, take/fetch_update/update_fetch); commit atomicity across threads rests on the oracle mutex, whose critical section is validated by the multi-threaded traces",
    technique="TLA+ spec (FjallTx) + TLC exhaustive + transaction replay"),
  "C08": dict(engine="tx-spec", design="6/C08",
-   text="FjallTx defines in-transaction reads as own-writes-over-snapshot (TxVal), commit as the final write per key and keyspace in one batch, rollback/conflict as no effect, and the single-writer mutex; TLC checks CommitIsFinalWrites, NoEffectUnlessCommitted, SingleWriterExclusion (also over two keyspaces with the same user keys). Replay of TLC-simulated programs (<=6 operations, commit/rollback endings, 1 and 2 keyspaces, helper operations in between) on both SingleWriterTxDatabase and OptimisticTxDatabase compares every read (get, contains_key, size_of, iter, range shapes, len, is_empty, first/last, reverse iteration), take / fetch_update / update_fetch return values, and the content seen by an outside reader and snapshot after each commit.",
+   text="FjallTx defines in-transaction reads as own-writes-over-snapshot (TxVal), commit as the final write per key and keyspace in one batch, rollback/conflict as no effect, and the single-writer mutex; TLC checks CommitIsFinalWrites, NoEffectUnlessCommitted, SingleWriterExclusion (also over two keyspaces with the same user keys). Replay of TLC-simulated programs (<=6 operations, commit/rollback endings, 1 and 2 keyspaces, helper operations in between) on both SingleWriterTxDatabase and OptimisticTxDatabase compares every read (get, contains_key, size_of, iter, range shapes, len, is_empty, first/last, reverse iteration), take / fetch_update / update_fetch return values, and the content seen by an outside reader and snapshot after each commit. Threads queueing on the single-writer mutex are recorded and validated against Tx_Trace (every commit read the committed state of its commit point: no lost update).",
    note="lost-update freedom under thread schedules rests on the writer mutex (SingleWriterExclusion)",
    technique="TLA+ spec (FjallTx) + TLC + transaction replay on both transactional databases"),
  "C09": dict(engine="journal-spec", design="6/C09",
-   text="TLC checks PowerLossKeepsDurable and CrashKeepsBuffered on FjallJournal (persist of every mode interleaved with 2 writers, with and without manual journal persist). On the implementation the adversary records, per journal file, the byte ranges written since its last successful fsync/fdatasync; for every mutating call of TLC-chosen behaviours (those with journal rotations first) and of the regression corpus a power-loss image (exactly those ranges zeroed) is reopened: no value acknowledged before the last sync point (persist(SyncData|SyncAll), journal rotation, drop) may be lost. With manual journal persist, process-crash images must contain everything before the last persist of any mode.",
+   text="TLC checks PowerLossKeepsDurable and CrashKeepsBuffered on FjallJournal (persist of every mode interleaved with 2 writers, with and without manual journal persist). On the implementation the adversary records, per journal file, the byte ranges written since its last successful fsync/fdatasync; for every mutating call of TLC-chosen behaviours (those with journal rotations first) and of the regression corpus a power-loss image (exactly those ranges zeroed) is reopened: no value acknowledged before the last sync point (persist(SyncData|SyncAll), journal rotation, drop) may be lost. With manual journal persist, process-crash images must contain everything before the last persist of any mode. Manual journal persist is modelled and driven as the two independent switches the code has (keyspace: insert/remove/clear; database: batches/transactions), one at a time and together; batches carry durability levels (sync points like persist) and are also committed as write transactions of the single-writer database; variants ClearFlushes = FALSE (D27) and PersistShortcut must be rejected.",
    note="power loss discards unsynced JOURNAL bytes (as the property says); table/manifest durability relies on lsm-tree's own fsyncs",
    technique="TLA+ spec (FjallJournal) + TLC + power-loss image enumeration"),
  "C10": dict(engine="store-spec", design="6/C10",
@@ -61,16 +61,16 @@ CLAIMED = {
    note="round trip over ALL byte strings is sampled per class, not decided; known finding D10 (Start.seqno not covered by the checksum)",
    technique="TLA+ spec (JournalFormat) + TLC + byte-alteration campaign + outcome-table conformance"),
  "C18": dict(engine="store-spec", design="6/C18",
-   text="FjallStore with filter assignment by name - every name has its OWN filter kind (different verdicts per key, same Factory::name()) - applied by compactions: TLC checks FilteredFormOnly, AssignedIffAssigner (also after reopen), FilteredIsSticky (action property, also across reopen, waived only for the signature of D24), and ViewEqRef for unfiltered keyspaces. Replay with real compaction filter factories installed through the builder, filters on a only / b only / both, keyspaces created with fresh options or with options cloned from another keyspace's handle: filtered keyspaces must show original or their own filtered form (sticky once observed), the exact model state after a major compaction, unfiltered keyspaces the reference map.",
+   text="FjallStore with filter assignment by name - every name has its OWN filter kind (different verdicts per key, same Factory::name()) - applied by compactions: TLC checks FilteredFormOnly, AssignedIffAssigner (also after reopen), FilteredIsSticky (action property, also across reopen, waived only for the signature of D24), and ViewEqRef for unfiltered keyspaces. Replay with real compaction filter factories installed through the builder, filters on a only / b only / both, keyspaces created with fresh options or with options cloned from another keyspace's handle: filtered keyspaces must show original or their own filtered form (sticky once observed), the exact model state after a major compaction, unfiltered keyspaces the reference map. One of the two model filters decides from the value (key 2: Remove iff the value is an odd number), so that verdict handling across several versions of a key is observable.",
    note="non-major compaction choices are the strategy's; the replay accepts either form there; known finding D24 (filter-removed item replayed from the journal)",
    technique="TLA+ spec (FjallStore filters) + TLC + replay with a real filter factory"),
  "C06": dict(engine="mvcc-spec", design="6/C06",
-   text="FjallMVCC models writers stepping through the journal critical section (draw - apply item by item - publish), version upgrades of any tree that draw from the shared seqno counter and raise the shared visible counter without the journal mutex, and snapshot readers; TLC checks NoTornBatch, InflightAboveVisible, ViewsFrozen, MutualExclusion for all schedules of 2 writers (a 2-item batch over 2 keyspaces) x 2 views, without and with version upgrades (the latter reaches the open finding D7, waived only downstream of its signature). The TLC counterexample is forced on the real code with pause sites (writer parked between two applies, flush of another keyspace, snapshot reads both keys). Multi-threaded runs of the real code (4-6 threads, 2-4 real workers, tiny memtables, batches over 2 keyspaces, snapshots) are recorded through hooks under the journal mutex and validated against MVCC_Trace, which evaluates NoTornBatch in every state of the trace.",
+   text="FjallMVCC models writers stepping through the journal critical section (draw - apply item by item - publish), version upgrades of any tree that draw from the shared seqno counter and raise the shared visible counter without the journal mutex, and snapshot readers; TLC checks NoTornBatch, InflightAboveVisible, ViewsFrozen, MutualExclusion for all schedules of 2 writers (a 2-item batch over 2 keyspaces) x 2 views, without and with version upgrades (the latter reaches the open finding D7, waived only downstream of its signature). The TLC counterexample is forced on the real code with pause sites (writer parked between two applies, flush of another keyspace, snapshot reads both keys). Multi-threaded runs of the real code (4-6 threads, 2-4 real workers, tiny memtables, batches over 2 keyspaces, snapshots) are recorded through hooks under the journal mutex and validated against MVCC_Trace, which evaluates NoTornBatch in every state of the trace. Plain scans (Keyspace::iter / range / prefix without a snapshot object) race multi-item batches in a separate multi-threaded run without version upgrades: the cells one scan returns must be the committed state at ONE instant of its call window (event ScanRet of MVCC_Trace), with no waiver.",
    note="lsm-tree's version upgrade is not hookable: inferred as forced silent steps from the seqno/visible scalars logged with every event; binding self-test (trace with a removed WApply must be rejected) on every run; known finding D7",
    technique="TLA+ spec (FjallMVCC) + TLC exhaustive + forced schedule + trace validation of multi-threaded runs"),
  "C14": dict(engine="mvcc-spec", design="6/C14",
-   text="FjallMVCC: seqno order = order of critical sections = apply order (MutualExclusion), reads see applied entries; WorkerQueue: the worker pool's message protocol with the journal mutex - NoSendUnderLock / WritersNeverStuck (a writer's progress never depends on room in the worker queue). On the implementation 2-8 threads write and read the same small key set through cloned handles with 1-4 real worker threads and tiny memtables; call/return events per thread plus the internal draw/apply/publish events are validated against MVCC_Trace (every get must return a value the key had between its call and its return - also against an in-flight clear -, every write occupies exactly one critical section in seqno order, the final content equals the model state); a watchdog turns client threads that never finish into a violation; a flood probe (tight-loop writers, 1000-byte memtables, 1-2 workers, worker queue filling up) reports writers that stop making progress and checks that nothing acknowledged is lost.",
-   note="liveness of the writers is decided on the WorkerQueue model and probed on the implementation with watchdogs; that background work itself can stop for ever (every worker blocked in send(Flush)) is reported as an observation, it breaks no listed property; binding self-test on every run",
+   text="FjallMVCC: seqno order = order of critical sections = apply order (MutualExclusion), reads see applied entries; WorkerQueue / WorkerQueue2: the worker pool's message protocol (bounded queue, rotation requests carrying memtable ids, one flush-task FIFO for several keyspaces, journal mutex) - NoSendUnderLock, TasksAnnounced, WritersNeverStuck, NoStalledForEver as invariants, SealedEventuallyFlushed and StallEnds (a write stall ends) as liveness properties under weak fairness of the workers; five variants, among them the protocol as found before fix 80259e9 (D28), must be rejected on every run. On the implementation 2-8 threads write and read the same small key set through cloned handles with 1-4 real worker threads and tiny memtables; call/return events per thread plus the internal draw/apply/publish events are validated against MVCC_Trace (every get must return a value the key had between its call and its return - also against an in-flight clear -, every write occupies exactly one critical section in seqno order, the final content equals the model state); a watchdog turns client threads that never finish into a violation; a flood probe (tight-loop writers, 1000-byte memtables, 1-2 workers, worker queue filling up) reports writers that stop making progress and checks that nothing acknowledged is lost. The TLC counterexample of the as-found protocol is forced on the real code with a pause site (every worker parked between sealing a memtable and handling the flush task, queue filled through another keyspace): the stalled writer must come back. A second flood probe uses several keyspaces (flood on four, then writers on a keyspace that was idle).",
+   note="liveness of the writers is decided on the WorkerQueue models (weak fairness of the workers) and probed on the implementation with watchdogs and one forced schedule; binding self-test on every run",
    technique="TLA+ spec (FjallMVCC) + TLC + trace validation of multi-threaded runs (linearization points as silent steps)"),
  "C17": dict(engine="lifecycle-spec", design="6/C17",
    text="DbLifecycle models the version marker, the advisory lock shared by DatabaseInner and every KeyspaceInner, user handles, the worker pool (thread counter, bounded queue whose messages carry keyspace clones), every step of Drop for DatabaseInner, the field drop order of DatabaseInner / KeyspaceInner, Drop for Journal and the unlock. TLC checks HandleImpliesLock, AtMostOneInstance, RefusedChangesNothing, IncompatibleRefused, AbsentMarkerRefused, UnlockAfterSync, NoUnsyncedOpen, DropReturnedWorkersGone, SettledUnlocked exhaustively (2-3 interleaved open attempts, 2 workers that may fail, both handle kinds, messages sent through keyspace handles) and DropTerminatesAll under weak fairness; six variants that re-introduce the repaired defects D9/D19/D20/D21/D22/D26 must each be rejected by the model on every run (the worker queue is modelled with flume's semantics: a sender blocked on the full queue is admitted only when a receiver finds room). Binding: forced schedules with pause sites for each model counterexample (worker delayed on its way out, worker that fails, worker blocked in send(Flush), message stranded in the queue, marker removed); TLC-simulated client-level behaviours (open attempts of all three database types, every marker class, clone/drop orders, writes, messages) replayed with real worker threads comparing lock state (flock probe), open result, directory digest after refused opens, worker threads alive, journal dropped, journal bytes covered by fsync (syscall record); multi-threaded handle churn recorded through lifecycle hooks and validated against Life_Trace with every invariant evaluated in every state.",
@@ -125,7 +125,9 @@ m = {
    {"name": "mvcc-spec", "path": "spec/FjallMVCC.tla", "serves_properties": ["C05", "C06", "C14"],
     "kind_free_text": "TLA+ specification of writers' critical sections, version upgrades on the shared counters, snapshot readers; MC_MVCC_*.cfg; MVCC_Trace (trace validation of multi-threaded runs)"},
    {"name": "worker-queue-spec", "path": "spec/WorkerQueue.tla", "serves_properties": ["C14"],
-    "kind_free_text": "TLA+ specification of the worker pool's message protocol (bounded queue, try_send by writers, blocking sends by workers, journal mutex, write stall); MC_WorkerQueue_Lock.cfg (C14: writers never depend on queue room), MC_WorkerQueue.cfg (observation: background work can stop)"},
+    "kind_free_text": "TLA+ specification of the worker pool's message protocol (bounded queue, try_send by writers, what a worker does after sealing a memtable, journal mutex, write stall); MC_WorkerQueue_Lock.cfg (invariants), MC_WorkerQueue.cfg (liveness: SealedEventuallyFlushed); variants SendUnderLock, FlushTrySend, InlineFlush = FALSE (as found, D28)"},
+   {"name": "worker-queue2-spec", "path": "spec/WorkerQueue2.tla", "serves_properties": ["C14"],
+    "kind_free_text": "the same protocol with several keyspaces and rotation requests carrying memtable ids: TasksAnnounced, SealedHasTask, NoStalledForEver (MC_WorkerQueue2.cfg), liveness StallEnds (MC_WorkerQueue2_Live.cfg); variants AsFound (D28), FlushTrySend"},
    {"name": "options-spec", "path": "spec/FjallOptions.tla", "serves_properties": ["C16"],
     "kind_free_text": "TLA+ specification of the stored form of keyspace options (meta keyspace rows), deletion, re-creation, recovery decoder; MC_Opts.cfg; MC_OptsSim (behaviour generation)"},
    {"name": "lifecycle-spec", "path": "spec/DbLifecycle.tla", "serves_properties": ["C17"],
